@@ -383,7 +383,7 @@ fn write_evidence(e: EvidenceIn) {
         "property_id": e.prop.id(),
         "tier": e.tier.name(),
         "seed": e.seed as i64,
-        "level": "exploration",
+        "level": e.prop.level(),
         "coverage": {
             "evaluations": evaluations,
             "distinct_nontrivial": distinct,
